@@ -1328,7 +1328,7 @@ def declare_rules(ck):
             "narrowed to a signed type (`int(_my_dim)`) is dominated by a rejection that bounds it from above, a parsed SIGNED value "
             "converted to an unsigned one (`Index(_num_elems)`) by a rejection of negative values (documented Xml::*Error); for a field the "
             "bound must hold whenever the callback that parses it returns normally (input class: dim=\"4294967295\" -> int(dim) == -1 -> "
-            "XASSERT abort in AttributeSet; size=\"1 -1\" -> a partition with 2^64-1 elements is accepted)", 4)
+            "XASSERT abort in AttributeSet; size=\"1 -1\" -> a partition with 2^64-1 elements is accepted)", 6)
     ck.rule("E7.parse-unsigned-sign",
             "String::parse<T> for an unsigned T rejects a leading minus sign: the stream extraction it is built on accepts \"-1\" and "
             "wraps it to 2^N-1 without setting failbit, so every unsigned attribute / token of a mesh file silently accepts negated "
@@ -1336,7 +1336,7 @@ def declare_rules(ck):
     ck.rule("E7.attr-value-used",
             "a field of a parser class that create() fills with the text of an attribute is read by some member function of the class "
             "(used, validated or handed on): a value that is stored and never looked at is neither checked nor applied (input class: a root "
-            "markup whose mesh=\"...\" declaration contradicts the <Mesh type=...> it contains)", 6)
+            "markup whose mesh=\"...\" declaration contradicts the <Mesh type=...> it contains)", 7)
     ck.rule("E11.angles-roundtrip",
             "the yaw/pitch/roll values Extrude::write reconstructs from the rotation matrix reproduce that matrix when read back: with "
             "R(yaw,pitch,roll) taken from Tiny::Matrix::set_rotation_3d, the token->parameter binding and the revolution scaling from "
@@ -2646,13 +2646,22 @@ def rule_counter_extent(ck, W, pcs, facts, limits):
                 exp = ("?", "no `%s.reset(new AttributeSet(n, dim))` found" % fld)
                 for g in cfs:
                     for x in g.nodes():
+                        # the owning pointer is (re)seated: fld.reset(new T(n, dim)) / fld = std::unique_ptr<T>(new T(n, dim)) /
+                        # fld = std::make_unique<T>(n, dim)
+                        src = None
                         if x.get("k") == "MCall" and x.get("n") == "reset" and root_var(x.get("obj")) == fld and x.get("a"):
-                            nw = strip(x["a"][0])
-                            if nw.get("k") == "New":
-                                cs = [c for c in children(nw) if c.get("k") == "Construct"]
+                            src = x["a"][0]
+                        elif x.get("k") == "OpCall" and x.get("op") == "=" and len(x.get("a", [])) == 2 and is_this_field(x["a"][0]) and strip(x["a"][0])["n"] == fld:
+                            src = x["a"][1]
+                        if src is None:
+                            continue
+                        for y in walk(src):
+                            if y.get("k") == "New":
+                                cs = [c for c in children(y) if c.get("k") == "Construct"]
                                 if cs and cs[0].get("a"):
                                     exp = norm(cs[0]["a"][0])
-                                    # second index: bounded by the dimension the set was created with
+                            elif y.get("k") == "Call" and y.get("callee") == "std::make_unique" and y.get("a") and "AttributeSet" in (y.get("cfull") or ""):
+                                exp = norm(y["a"][0])
             elif n.get("k") == "Index" and ("@" + C) in vars_of(n["idx"]) and is_this_field(n["b"]) and not n.get("_addr_of_alias"):
                 # (`T* const p = &field[e];` only forms an address: the accesses are the uses of p, rewritten by lib/norm_c11.py)
                 fld = strip(n["b"])["n"]
@@ -2716,6 +2725,8 @@ def rule_counter_extent(ck, W, pcs, facts, limits):
                 (rec["probs"] if exp[0] == "!" else rec["unk"]).append(exp[1])
             elif not lims:
                 rec["unk"].append("no rejection limit of %s was established (see E7.counter-guard)" % C)
+            elif exp not in lims and exp in {norm(rhs_) for L_ in lims for _g, rhs_ in field_assignments(cfs, L_)}:
+                pass          # the limit field is assigned from the very expression that sizes the container (named temporary in between)
             elif exp not in lims:
                 rec["probs"].append("`%s` is indexed by %s, whose rejection limit is %s, but the extent of the container is %s" % (what, C, lims, exp))
     for key, rec in sorted(seen.items()):
@@ -4211,6 +4222,8 @@ def rule_parsed_conversion(ck, W, facts):
                 for fa in fs or ():
                     if fa[0] == "==" and fa[3] and X in (fa[1], fa[2]):
                         return True
+                    if fa[0] == "==" and fa[3] and kind == "u" and any(sd is not None and sd.endswith(".size()") for sd in (fa[1], fa[2])) and X in fact_leaves(fa):
+                        return True          # a container size equals an expression of X (number of tokens == f(count)): X is as small as the line
                     if fa[0] != "<":
                         continue
                     if kind == "u":
@@ -4239,7 +4252,8 @@ def rule_parsed_conversion(ck, W, facts):
             if where:
                 g0, c0 = convs[0]
                 what = ("`%s` (line %s, %s)" % (render(c0)[:30], c0.get("l"), g0.name))
-                sus = suspects(W, e, None, vars_of(tgt), anywhere=True)
+                in_f = [c for g, c in convs if g is f]
+                sus = suspects(W, e, in_f[0], vars_of(tgt)) if in_f else suspects(W, e, None, vars_of(tgt), anywhere=True)
                 msg = ("the parsed %s value %s is converted to %s in %s without a rejection that bounds it %s (%s): %s" % (
                     "unsigned" if kind == "u" else "signed", X, "a signed type" if kind == "u" else "an unsigned type", what,
                     "from above" if kind == "u" else "to non-negative values", "; ".join(where[:2]),
